@@ -1,4 +1,144 @@
-(* stub: executable interface of group Costs *)
-From Coq Require Import List ZArith.
+(* Executable interface of group "costs": cases and results are flat lists of
+   integers (rationals as numerator, denominator). *)
+From Coq Require Import List NArith ZArith QArith Qcanon Bool.
+From ACB Require Import Base.Outcome Base.QcExtra Base.Fit Base.Arith Model.Tx Model.Costs
+     Model.HashSites Spec.MaxCost.
 Import ListNotations.
-Definition dispatch (l : list Z) : list Z := [(-9)%Z].
+Local Open Scope Z_scope.
+
+Definition P (T : Type) : Type := list Z -> option (T * list Z).
+Definition pret {T} (v : T) : P T := fun l => Some (v, l).
+Definition pbind {T U} (p : P T) (f : T -> P U) : P U :=
+  fun l => match p l with Some (v, r) => f v r | None => None end.
+Notation "x <~ p ;; k" := (pbind p (fun x => k)) (at level 100, p at next level, right associativity).
+
+Definition pZ : P Z := fun l => match l with z :: r => Some (z, r) | [] => None end.
+Definition pN : P N := z <~ pZ ;; pret (Z.to_N z).
+Definition pbool : P bool := z <~ pZ ;; pret (negb (z =? 0)).
+Definition pQ : P Qc := n <~ pZ ;; d <~ pZ ;; pret (Qcfrac n (Z.to_pos d)).
+Definition poptQ : P (option Qc) := t <~ pbool ;; q <~ pQ ;; pret (if t then Some q else None).
+
+Fixpoint prep {T} (n : nat) (p : P T) : P (list T) :=
+  match n with
+  | O => pret []
+  | S k => x <~ p ;; r <~ prep k p ;; pret (x :: r)
+  end.
+Definition plist {T} (p : P T) : P (list T) :=
+  fun l => match l with
+           | z :: r => prep (Z.to_nat z) p r
+           | [] => None
+           end.
+
+Definition pdelta : P cdelta :=
+  sec <~ pN ;; day <~ pZ ;; af <~ pN ;; dflt <~ pbool ;; pre <~ poptQ ;; post <~ poptQ ;;
+  pret {| cd_sec := sec; cd_day := day; cd_af := af; cd_dflt := dflt; cd_pre := pre; cd_post := post |}.
+
+(* ---- output ---- *)
+Definition oQ (q : Qc) : list Z := [Qnum (this q); Zpos (Qden (this q))].
+Definition olist {T} (f : T -> list Z) (l : list T) : list Z := Z.of_nat (length l) :: flat_map f l.
+Definition opanic (p : panic) : list Z :=
+  match p with
+  | PanicOverflow => [1; 0] | PanicDivZero => [2; 0]
+  | PanicConstraint s => [3; Z.of_N s] | PanicAssert s => [4; Z.of_N s]
+  | PanicMissing s => [5; Z.of_N s]
+  end.
+Definition onote (n : note) : list Z :=
+  match n with
+  | NoteReg d s => [0; d; Z.of_N s; 0]
+  | NoteAf d s a => [1; d; Z.of_N s; Z.of_N a]
+  end.
+Definition otrow (r : trow) : list Z :=
+  let '(d, t, cs) := r in d :: oQ t ++ flat_map oQ cs.
+Definition oyrow (r : yrow) : list Z :=
+  let '(y, d, t, cs) := r in y :: d :: oQ t ++ flat_map oQ cs.
+Definition otables (t : ctables) : list Z :=
+  olist (fun s => [Z.of_N s]) (ct_secs t) ++ olist otrow (ct_total t) ++ olist oyrow (ct_yearly t)
+        ++ olist onote (ct_notes t).
+Definition ores (r : res ctables) : list Z :=
+  match r with
+  | Ok t => 0 :: otables t
+  | Rej _ => [1]
+  | Panic p => 2 :: opanic p
+  end.
+
+Definition arith_of (z : Z) : arith := if z =? 0 then exact else dec.
+Definition sec_order_of (z : Z) : list N -> list N :=
+  if z =? 0 then nsort else if z =? 1 then (fun l => l) else (fun l => rev (nsort l)).
+Definition day_order_of (z : Z) : list Z -> list Z :=
+  if z =? 0 then zsort else if z =? 1 then (fun l => l) else (fun l => rev (zsort l)).
+
+(* entry point 0: the tables of the model; arith, carry mode (0 = closing cost,
+   the code as it is; 1 = the day's maximum), iteration orders (0 = sorted,
+   the code as it is; 1 = insertion order; 2 = descending), deltas *)
+Definition run_costs : P (list Z) :=
+  a <~ pZ ;; cm <~ pZ ;; so <~ pZ ;; dor <~ pZ ;; ds <~ plist pdelta ;;
+  pret (ores (costs_with (arith_of a) (if cm =? 0 then CarryClosing else CarryMax)
+                         (sec_order_of so) (day_order_of dor) ds)).
+
+(* entry point 1: the L0 tables *)
+Definition run_spec : P (list Z) :=
+  ds <~ plist pdelta ;;
+  pret (otables {| ct_secs := spec_secs ds; ct_total := spec_table ds;
+                   ct_yearly := spec_yearly ds; ct_notes := spec_notes ds |}).
+
+(* entry point 2: years of day numbers *)
+Definition run_years : P (list Z) := ds <~ plist pZ ;; pret (map year_of ds).
+
+(* entry point 3: a decimal sum in the given order (C09 sum sites);
+   arith, values *)
+Definition run_sum : P (list Z) :=
+  a <~ pZ ;; vs <~ plist pQ ;;
+  pret (match sum_in_order (arith_of a) vs with
+        | Ok q => 0 :: oQ q
+        | Rej _ => [1]
+        | Panic p => 2 :: opanic p
+        end).
+
+(* entry point 5: aggregate capital gains (cumulative_gains.rs): arith, order
+   over the securities (0 = sorted, the code as it is; 1 = as given;
+   2 = descending), per security its deltas' (year, gain) *)
+Definition pyg : P (Z * Qc) := y <~ pZ ;; g <~ pQ ;; pret (y, g).
+Definition psecg : P (N * list (Z * Qc)) := s <~ pN ;; l <~ plist pyg ;; pret (s, l).
+Definition korder_of {V} (z : Z) : list (N * V) -> list (N * V) :=
+  if z =? 0 then ksort else if z =? 1 then (fun l => l) else (fun l => rev (ksort l)).
+Definition run_gains : P (list Z) :=
+  a <~ pZ ;; o <~ pZ ;; m <~ plist psecg ;;
+  let A := arith_of a in
+  pret (match (per <- mmap (fun e => g <- sec_gains A (snd e) ;; Ok (fst e, g)) m ;;
+               gains_out A (korder_of o per)) with
+        | Ok (t, ys) => 0 :: oQ t ++ olist (fun x => fst x :: oQ (snd x)) ys
+        | Rej _ => [1]
+        | Panic p => 2 :: opanic p
+        end).
+
+(* entry point 4: one rust_decimal operation (validation of Base/Fit.v) *)
+Definition run_arith : P (list Z) :=
+  op <~ pZ ;; a <~ pQ ;; b <~ pQ ;;
+  pret (match op with
+        | 0 => match fit (a + b)%Qc with Some r => 1 :: oQ r | None => [0] end
+        | 1 => match fit (a - b)%Qc with Some r => 1 :: oQ r | None => [0] end
+        | 2 => match fit (a * b)%Qc with Some r => 1 :: oQ r | None => [0] end
+        | 3 => if Qceqb b 0%Qc then [0] else
+               match fit (a / b)%Qc with Some r => 1 :: oQ r | None => [0] end
+        | _ => 1 :: oQ (round2 a)
+        end).
+
+Definition dispatch (l : list Z) : list Z :=
+  match l with
+  | mode :: r =>
+      let p := match mode with
+               | 0 => run_costs
+               | 1 => run_spec
+               | 2 => run_years
+               | 3 => run_sum
+               | 4 => run_arith
+               | 5 => run_gains
+               | _ => fun _ => None
+               end in
+      match p r with
+      | Some (out, []) => 1 :: out
+      | Some (_, _ :: _) => [-1]       (* trailing input *)
+      | None => [-2]                   (* malformed input *)
+      end
+  | [] => [-3]
+  end.
